@@ -202,6 +202,10 @@ def _box_record(box, page):
         rec['bs' + side[0]] = st['border_%s_style' % side]
     rec['radii'] = [[_num(v.value) if hasattr(v, 'value') else _num(v) for v in st['border_%s_radius' % c]]
                     for c in ('top_left', 'top_right', 'bottom_right', 'bottom_left')]
+    rec['oradii'] = []
+    for c in ('top_left', 'top_right', 'bottom_right', 'bottom_left'):
+        v = getattr(box, 'border_%s_radius' % c, (0, 0))
+        rec['oradii'] += [float(v[0]), float(v[1])] if isinstance(v[0], (int, float)) else [0.0, 0.0]
     tf = []
     for name, args in (st['transform'] or ()):
         def conv(a):
@@ -257,3 +261,40 @@ def render_display(case):
                           canvas=(_rgba(canvas.color) if canvas else None)))
     pdf = doc.write_pdf(uncompressed_pdf=True)
     return dict(pdf=pdf.decode('latin-1'), pages=pages)
+
+
+# ------------------------------------------------------------------- rounded boxes: exact direct calls
+
+def rounded_direct(case):
+    """case: dict(cw, ch, bw=[t,r,b,l], pd=[t,r,b,l], radii=[8 values: tl(x,y) tr br bl], px, py, ml, mt,
+    mode=0..4, args=[4]) with 'n/d' strings.  Calls the real Box.rounded_box / rounded_*_box on a stub BlockBox with
+    Fraction fields.  Returns [x - border_box_x, y - border_box_y, w, h, 8 radii] as 'n/d' strings."""
+    from fractions import Fraction as F
+    from weasyprint.formatting_structure import boxes as B
+    box = object.__new__(B.BlockBox)
+    box.width, box.height = F(case['cw']), F(case['ch'])
+    (box.border_top_width, box.border_right_width, box.border_bottom_width, box.border_left_width) = \
+        [F(v) for v in case['bw']]
+    (box.padding_top, box.padding_right, box.padding_bottom, box.padding_left) = [F(v) for v in case['pd']]
+    box.position_x, box.position_y = F(case['px']), F(case['py'])
+    box.margin_left, box.margin_top = F(case['ml']), F(case['mt'])
+    box.margin_right = box.margin_bottom = F(0)
+    r = [F(v) for v in case['radii']]
+    box.border_top_left_radius = (r[0], r[1])
+    box.border_top_right_radius = (r[2], r[3])
+    box.border_bottom_right_radius = (r[4], r[5])
+    box.border_bottom_left_radius = (r[6], r[7])
+    mode, args = case['mode'], [F(v) for v in case['args']]
+    if mode == 0:
+        out = box.rounded_box(*args)
+    elif mode == 1:
+        out = box.rounded_border_box()
+    elif mode == 2:
+        out = box.rounded_padding_box()
+    elif mode == 3:
+        out = box.rounded_content_box()
+    else:
+        out = box.rounded_box_ratio(args[0])
+    x, y, w, h, tl, tr, br, bl = out
+    vals = [x - box.border_box_x(), y - box.border_box_y(), w, h, tl[0], tl[1], tr[0], tr[1], br[0], br[1], bl[0], bl[1]]
+    return [str(F(v)) for v in vals]
